@@ -103,6 +103,7 @@ type SimConn struct {
 	FailWrite error
 	// ShortRead > 0: Read returns at most this many bytes per call (fault).
 	OnOp   func(c *SimConn, op string, n int)
+	SawEOF bool // a Read on this end has reported the peer's end-of-stream
 	laddr  net.Addr
 	raddr  net.Addr
 	Closes int
@@ -184,6 +185,7 @@ func (c *SimConn) Read(p []byte) (int, error) {
 			var err error
 			if c.In.EOFWithData && c.In.finDeliv && len(c.In.delivered) == 0 {
 				err = io.EOF
+				c.SawEOF = true
 			}
 			c.WireReads++
 			s.Mu.Unlock()
@@ -191,6 +193,7 @@ func (c *SimConn) Read(p []byte) (int, error) {
 			return n, err
 		}
 		if c.In.finDeliv {
+			c.SawEOF = true
 			s.Mu.Unlock()
 			return 0, io.EOF
 		}
